@@ -19,3 +19,10 @@ Theorem C20_readers_as_modelled :
   same_args file_reader_args modelled_reader_args = true /\ assoc_str "newline" file_open_args = Some "''"%string.
 Proof. exact readers_as_modelled. Qed.
 Print Assumptions C20_readers_as_modelled.
+
+(* obligation regenerated from the source on every run: the code this property runs through keeps exactly the state the
+   model knows (no new attribute, class-level table, module-level binding or caching decorator), see proofs/State*Proofs.v *)
+From KV Require Import StateGen StateBase StateImportProofs StateExportProofs.
+Theorem C20_state_as_modelled : state_import = modelled_state_import /\ state_export = modelled_state_export.
+Proof. exact (conj state_import_as_modelled state_export_as_modelled). Qed.
+Print Assumptions C20_state_as_modelled.
